@@ -5,7 +5,7 @@
 # 3. stores /verif/seeded/<seed-id>/{patch.diff,demo.py,meta.json}
 set -u
 P=$1; WT=$2; ID=$3; shift 3; CHECKS=${@:-$P}
-OUT=/verif/seeded/$ID; mkdir -p $OUT
+OUT=/verif/seeded/$ID; mkdir -p $OUT /tmp/scratch
 cd $WT || exit 2
 git diff -- . ':!seed' > /tmp/scratch/$ID.patch
 [ -s /tmp/scratch/$ID.patch ] || cp seed/patch.diff /tmp/scratch/$ID.patch
